@@ -121,6 +121,14 @@ fn step(k1: usize, k2: usize, same_id: bool, same_c0: bool, same_c1: bool) {
 }
 
 fn step_core(k1: usize, k2: usize, same_id: bool, same_c0: bool, same_c1: bool) {
+    // The table (its empty `Vec`s) is created before anything is interned: a `Vec::new()` that
+    // follows a write to the interner's static arenas makes CBMC report the first `push` as a
+    // write through an invalid pointer in some checkout directories (DESIGN.md B19).
+    let infer: InferenceTable<VI> = InferenceTable::new();
+    step_core_with(infer, k1, k2, same_id, same_c0, same_c1)
+}
+
+fn step_core_with(mut infer: InferenceTable<VI>, k1: usize, k2: usize, same_id: bool, same_c0: bool, same_c1: bool) {
     let a0 = sym::u64();
     let a1 = sym::u64();
     // top-level ids are concrete in both classes: an id read back out of `TyKind::Adt` (the widest
@@ -131,7 +139,6 @@ fn step_core(k1: usize, k2: usize, same_id: bool, same_c0: bool, same_c1: bool) 
     let (c1a, c1b) = if same_c1 { (a1, a1) } else { (20, 21) };
     let t1 = mk(k1, id1, foreign(c0a), foreign(c1a));
     let t2 = mk(k2, id2, foreign(c0b), foreign(c1b));
-    let mut infer: InferenceTable<VI> = InferenceTable::new();
     let r = {
         let mut au = AntiUnifier { infer: &mut infer, universe: UniverseIndex::ROOT, interner: I };
         au.aggregate_tys(&t1, &t2)
@@ -160,6 +167,10 @@ fn step_core(k1: usize, k2: usize, same_id: bool, same_c0: bool, same_c1: bool) 
 
 /// `&m 'l F` on both sides: mutability / lifetime / pointee agree or not.
 fn ref_step(same_m: bool, same_lt: bool, same_c0: bool) {
+    // The table (its empty `Vec`s) is created before anything is interned: a `Vec::new()` that
+    // follows a write to the interner's static arenas makes CBMC report the first `push` as a
+    // write through an invalid pointer in some checkout directories (DESIGN.md B19).
+    let mut infer: InferenceTable<VI> = InferenceTable::new();
     let a0 = sym::u64();
     let (c0a, c0b) = if same_c0 { (a0, a0) } else { (10, 11) };
     let (m1, m2) = if same_m { (Mutability::Not, Mutability::Not) } else { (Mutability::Not, Mutability::Mut) };
@@ -170,7 +181,6 @@ fn ref_step(same_m: bool, same_lt: bool, same_c0: bool) {
     };
     let t1 = ty(TyKind::Ref(m1, l1, foreign(c0a)));
     let t2 = ty(TyKind::Ref(m2, l2, foreign(c0b)));
-    let mut infer: InferenceTable<VI> = InferenceTable::new();
     let r = {
         let mut au = AntiUnifier { infer: &mut infer, universe: UniverseIndex::ROOT, interner: I };
         au.aggregate_tys(&t1, &t2)
@@ -192,6 +202,10 @@ fn ref_step(same_m: bool, same_lt: bool, same_c0: bool) {
 /// `[F; N]` on both sides; const kinds: 0 concrete (same value), 1 concrete (different values),
 /// 2 placeholder vs concrete, 3 placeholder (same), 4 bound variable vs concrete
 fn array_step(same_c0: bool, consts: usize) {
+    // The table (its empty `Vec`s) is created before anything is interned: a `Vec::new()` that
+    // follows a write to the interner's static arenas makes CBMC report the first `push` as a
+    // write through an invalid pointer in some checkout directories (DESIGN.md B19).
+    let mut infer: InferenceTable<VI> = InferenceTable::new();
     let a0 = sym::u64();
     let (c0a, c0b) = if same_c0 { (a0, a0) } else { (10, 11) };
     let usize_ty = ty(TyKind::Scalar(Scalar::Uint(UintTy::Usize)));
@@ -206,7 +220,6 @@ fn array_step(same_c0: bool, consts: usize) {
     };
     let t1 = ty(TyKind::Array(foreign(c0a), k1));
     let t2 = ty(TyKind::Array(foreign(c0b), k2));
-    let mut infer: InferenceTable<VI> = InferenceTable::new();
     let r = {
         let mut au = AntiUnifier { infer: &mut infer, universe: UniverseIndex::ROOT, interner: I };
         au.aggregate_tys(&t1, &t2)
@@ -224,6 +237,10 @@ fn array_step(same_c0: bool, consts: usize) {
 
 /// leaf against leaf: 0 Foreign, 1 Scalar(u8 / i32), 2 Placeholder, 4 BoundVar, 5 Error, 6 Str, 7 Never
 fn leaf_step(la: usize, lb: usize, same: bool) {
+    // The table (its empty `Vec`s) is created before anything is interned: a `Vec::new()` that
+    // follows a write to the interner's static arenas makes CBMC report the first `push` as a
+    // write through an invalid pointer in some checkout directories (DESIGN.md B19).
+    let mut infer: InferenceTable<VI> = InferenceTable::new();
     let x = sym::u64();
     let ph = sym_placeholder();
     let mkl = |tag: usize, second: bool| -> Ty<VI> {
@@ -240,7 +257,6 @@ fn leaf_step(la: usize, lb: usize, same: bool) {
     };
     let t1 = mkl(la, false);
     let t2 = mkl(lb, true);
-    let mut infer: InferenceTable<VI> = InferenceTable::new();
     let r = {
         let mut au = AntiUnifier { infer: &mut infer, universe: UniverseIndex::ROOT, interner: I };
         au.aggregate_tys(&t1, &t2)
@@ -281,12 +297,18 @@ sharness!(c17_t_anti_leaf_error, 8, { leaf_step(5, 5, true) });
 /// Systematic rows (thorough tier): constructor `k1` against `k2`, ids agreeing or not, all four
 /// agreement patterns of the children.
 fn anti_row(k1: usize, k2: usize, same_id: bool) {
-    let mut m = 0;
-    while m < 4 {
-        arena_reset();
-        step_core(k1, k2, same_id, m & 1 != 0, m & 2 != 0);
-        m += 1;
-    }
+    // all four tables first, before anything is interned (B19)
+    let t0: InferenceTable<VI> = InferenceTable::new();
+    let t1: InferenceTable<VI> = InferenceTable::new();
+    let t2: InferenceTable<VI> = InferenceTable::new();
+    let t3: InferenceTable<VI> = InferenceTable::new();
+    step_core_with(t0, k1, k2, same_id, false, false);
+    arena_reset();
+    step_core_with(t1, k1, k2, same_id, true, false);
+    arena_reset();
+    step_core_with(t2, k1, k2, same_id, false, true);
+    arena_reset();
+    step_core_with(t3, k1, k2, same_id, true, true);
     cover!(true);
 }
 macro_rules! anti_rows {
